@@ -408,6 +408,98 @@ def run_file(ctx, case):
     ctx.case(case, True, labels=[f"file:{target}", f"access:{case['a']}+{case['b']}", "same-context" if case["same_context"] else "separate-contexts", f"edit:{case['edit']}"])
 
 
+# ---------------------------------------------------------------------------------------
+# deep mutation: every mutable container reachable from one instance is edited in place; a sibling made the same way,
+# and a block constructed afterwards, must not notice
+ALL_TYPES = ["optical", "events", "emg", "data3D", "force3D", "platCal", "platData", "data2D", "calib"]
+
+
+def _minimal_block(t):
+    from .c14 import _minimal
+
+    return specs.build(_minimal(t))
+
+
+def _some_block(t, seed):
+    """a small block with items, every array / list freshly made"""
+    from .c07 import labelled_spec
+    from .c14 import _minimal
+
+    if t == "calib":
+        spec = dict(_minimal("calib"))
+        cam = {"rot": [seed] * 9, "trans": [0] * 3, "focus": [0] * 2, "center": [0] * 2, "radial": [0, 0], "decentering": [0, 0], "prism": [0, 0], "vp": [0, 0, 1, 1]}
+        spec.update(cams=[cam, dict(cam)], map=[0, 1])
+        return specs.build(spec)
+    return specs.build(labelled_spec(t, 2))
+
+
+def deep_mutate(obj, depth=0, seen=None):
+    """edit in place every list and writable array reachable through instance attributes; returns the number of edits"""
+    import numpy as np
+
+    seen = seen if seen is not None else set()
+    if id(obj) in seen or depth > 3:
+        return 0
+    seen.add(id(obj))
+    n = 0
+    attrs = list(vars(obj).items()) if hasattr(obj, "__dict__") else []
+    for name, v in attrs:
+        if isinstance(v, list):
+            for x in list(v):
+                n += deep_mutate(x, depth + 1, seen)
+            v.append(v[0] if v else (0, 1))
+            n += 1
+        elif isinstance(v, np.ndarray):
+            if v.dtype == object:
+                for x in v.flat:
+                    if isinstance(x, np.ndarray) and x.size and x.flags.writeable:
+                        x.flat[0] = 77.0
+                        n += 1
+            elif v.size and v.flags.writeable:
+                try:
+                    v.flat[0] = 77 if v.dtype.kind in "iu" else 77.0
+                    n += 1
+                except (ValueError, TypeError):
+                    pass
+        elif hasattr(v, "__dict__") and type(v).__module__.startswith("basictdf"):
+            n += deep_mutate(v, depth + 1, seen)
+    return n
+
+
+def deep_strategy(tier):
+    import hypothesis.strategies as st_
+
+    return st_.fixed_dictionaries({"t": st_.sampled_from(ALL_TYPES), "origin": st_.sampled_from(["constructed", "constructed-empty", "decoded"]), "seed": st_.integers(1, 50)})
+
+
+def run_deep(ctx, case):
+    t, origin = case["t"], case["origin"]
+    fmt = {"platCal": 2, "data2D": 2}.get(t, 1)
+
+    def make():
+        if origin == "constructed-empty":
+            return _minimal_block(t)
+        b = _some_block(t, case["seed"])
+        return b if origin == "constructed" else specs.lib_decode(t, fmt, specs.lib_write(b))[0]
+
+    pristine_empty = specs.lib_write(_minimal_block(t))
+    a, b = make(), make()
+    before = specs.lib_write(b)
+    edits = deep_mutate(a)
+    after = specs.lib_write(b)
+    if after != before:
+        ctx.fail(f"deep/{t}/sibling-changed", f"{t} ({origin}): editing every container reachable from one instance in place changed the encoding of a "
+                                              f"separately made instance ({len(before)} -> {len(after)} bytes)")
+    fresh = specs.lib_write(_minimal_block(t))
+    if fresh != pristine_empty:
+        ctx.fail(f"deep/{t}/new-block-not-pristine", f"{t}: a block constructed after another instance was edited in place does not encode like a pristine one "
+                                                      f"({len(pristine_empty)} -> {len(fresh)} bytes)")
+    ctx.case(case, edits > 0, labels=[f"deep:{t}", origin])
+
+
 SUBS = [make(t) for t in TYPES]
+SUBS.append(Sub("deep-mutation", run_deep, strategy=deep_strategy, budget=(300, 6000), shards=(2, 8),
+                rule="all nine block classes: two instances made the same way (constructed / constructed empty / decoded from the same bytes); every list and writable "
+                     "array reachable from one is edited in place; the sibling and a block constructed afterwards must be unchanged"))
 SUBS.append(Sub("via-file", run_file, strategy=file_strategy, budget=(150, 4000), shards=(2, 8),
                 rule="1..3 blocks written to a file; the same block read twice through get_block / [] / getters / blocks (same or separate contexts); one copy edited, the other and the file must not change"))
